@@ -15,9 +15,28 @@ def run(tier, seed):
     pack.assume(*COMMON_ASSUME)
     pack.assume('A-fp: exact binary equality t + (s - t) == s is assumed inside the Sterbenz range (lemma L3, thorough tier); '
                 'time arithmetic is over the reals otherwise',
-                'not decided: TimeSeries.apply_exact (pandas lookup); csv replay; refresh_event != 0; custom events')
+                'TimeSeries.apply_exact (pandas lookup): bounded native stand-in only; not decided: csv replay; custom events')
     items = [(T.calc_h('C06'), T.WIT_F10, T.replay_calc_h), (T.do_switch('C06'),), (T.run('C06', drop=('success=>initialisation-test-not-failed',)),)]
     run_contracts(pack, items)
     from contracts import C06_more
     C06_more.add_obligations(pack, tier)
+    from contracts.packutil import native_guard
+    from contracts import bounded_timeseries as BTS
+    name = 'C06/andes/models/timeseries.py:TimeSeriesModel.apply_exact/bounded:exactly-the-rows-stamped-with-the-current-time-are-applied'
+    r = native_guard(pack, name, BTS.run)
+    if r is not None:
+        n, bad = r
+        pack.bounded.append({'function': 'TimeSeriesModel.apply_exact', 'kind': 'bounded native (stub device, %d data frames x schedules)' % n,
+                             'counted_as_proved': False})
+        if bad:
+            pack.violation(name, {'bounded': True, 'inputs': bad, 'native_cmd': 'contracts/bounded_timeseries.py'})
+    from contracts import bounded_events as BE
+    name = 'C06/andes/routines/tds.py:TDS.run/bounded:every-scheduled-event-acts-exactly-once-at-a-step-ending-at-its-time'
+    r = native_guard(pack, name, BE.run)
+    if r is not None:
+        n, bad = r
+        pack.bounded.append({'function': 'TDS.run with Toggle / Fault / Alter schedules (end to end)', 'kind': 'bounded native: kundur_full, %d schedules' % n,
+                             'counted_as_proved': False})
+        if bad:
+            pack.violation(name, {'bounded': True, 'inputs': bad, 'native_cmd': 'contracts/bounded_events.py'})
     return pack.finish()
